@@ -552,3 +552,68 @@ func C03_BareKeys() {
 		nd.Assert(v.String() == vq.String(), tag+"/variable-differs-from-quoted")
 	}
 }
+
+var _ = reg("C03_Surrogates", C03_Surrogates)
+
+// C03_Surrogates: two adjacent \u escapes in the surrogate range (the second
+// hex digit of each symbolic: D8..DF), in the \uXXXX and \u{XXXX} forms, in a
+// string, a key and a variable: accepted exactly for a high surrogate
+// followed by a low one, and then denoting the code point of the pair; a
+// surrogate next to an ordinary escape is rejected.
+func C03_Surrogates() {
+	d := nd.ASCIIN(2)
+	nd.Assume(isHexDigits(d))
+	h1, h2 := hexVal(d[0]), hexVal(d[1])
+	nd.Assume(h1 >= 8 && h2 >= 8)
+	u1 := int64(0xD000) + h1*0x100 + 0x3D
+	u2 := int64(0xD000) + h2*0x100 + 0x04
+	e := func(hex string, brace bool) string {
+		if brace {
+			return "\\u{" + hex + "}"
+		}
+		return "\\u" + hex
+	}
+	b1, b2 := nd.Choice(2) == 1, nd.Choice(2) == 1
+	first := e("D"+d[:1]+"3D", b1)
+	second := e("D"+d[1:]+"04", b2)
+	if nd.Choice(4) == 3 {
+		second = e("0041", b2) // a surrogate followed by an ordinary escape
+		u2 = 0x41
+	}
+	esc := first + second
+	var src string
+	kind := nd.Choice(3)
+	switch kind {
+	case 0:
+		src = "\"a" + esc + "z\""
+	case 1:
+		src = "$.\"a" + esc + "z\""
+	case 2:
+		src = "$\"a" + esc + "z\""
+	}
+	p, err := path.Parse(src)
+	tag := "C03/surrogates"
+	valid := u1 >= 0xD800 && u1 <= 0xDBFF && u2 >= 0xDC00 && u2 <= 0xDFFF
+	if !valid {
+		nd.Assert(err != nil, tag+"/invalid-pair-accepted")
+		return
+	}
+	nd.Assert(err == nil, tag+"/valid-pair-rejected")
+	if err != nil {
+		return
+	}
+	want := "a" + encodeRune(0x10000+(u1-0xD800)*0x400+(u2-0xDC00)) + "z"
+	var got string
+	var ok bool
+	switch kind {
+	case 0:
+		got, ok = strOf(p)
+	case 1:
+		got, ok = keyOf(p)
+	case 2:
+		if v, isV := p.Root().(*ast.VariableNode); isV {
+			got, ok = v.Text(), true
+		}
+	}
+	nd.Assert(ok && got == want, tag+"/denotes-wrong-code-point")
+}
